@@ -39,8 +39,9 @@ def units(tier):
     u += [("primitive", 0)]
     if tier == "thorough":
         u += [("supercell", k, "LX") for k in ("221", "nd6", "312")] + [("supercell", "nd9", m) for m in ("L", "X")] + [("supercell", "nd2", "LX"), ("supercell", "nd7", "L"), ("supercell", "nd3", "L")]
-        u += [("snf", "full", 1, a, b) for a in (-1, 0, 1) for b in (-1, 0, 1)]
-        u += [("snf", "ut", 2, a, b) for a in (-2, 2) for b in (-2, 0, 2)]
+        # all entries of the second and third row symbolic except the first column (kept at 0: with a symbolic first column the
+        # integer-nonlinear path conditions of the Euclid steps exceed the solver budget - outside the bound)
+        u += [("snf", "full", 1, 1, 0, 0, 0), ("snf", "full", 1, 1, 1, 0, 0), ("snf", "full", 1, -1, 1, 0, 0)]
     return u
 
 
@@ -243,11 +244,13 @@ def snf_unit(u, res):
             return a
     ents = {}
 
+    fixed = {(0, 0): a00, (0, 1): a01}
+    if len(u) > 5:
+        fixed[(1, 0)] = u[5]; fixed[(2, 0)] = u[6]
+
     def mk(i, j):
-        if (i, j) == (0, 0):
-            return a00
-        if (i, j) == (0, 1):
-            return a01
+        if (i, j) in fixed:
+            return fixed[(i, j)]
         ents[(i, j)] = z3.Int("a%d%d" % (i, j))
         return SI(ents[(i, j)])
 
@@ -282,7 +285,7 @@ def snf_unit(u, res):
                       [Dz[i][i] > 0 for i in range(3)] + [det3(Pz) == 1, z3.Or(det3(Qz) == 1, det3(Qz) == -1),
                       Dz[0][0] * Dz[1][1] * Dz[2][2] == z3.If(e.det > 0, e.det, -e.det), Dz[1][1] % Dz[0][0] == 0, Dz[2][2] % Dz[1][1] == 0])
         v, m = solve(res, "SNF postcondition on path %d" % n, e.pc + [z3.Not(post)], timeout_ms=30000)
-        key = "%s:snf:%s:B%d:a00=%d:a01=%d" % (PID, shape, B, a00, a01)
+        key = "%s:snf:%s:B%d:a00=%d:a01=%d%s" % (PID, shape, B, a00, a01, "" if len(u) <= 5 else ":a10=%d:a20=%d" % (u[5], u[6]))
         if v == "sat":
             Mv = [[model_value(m, e.M[i][j]) for j in range(3)] for i in range(3)]
             ok, what = replay_snf(Mv)
@@ -366,7 +369,7 @@ def main(tier, seed):
     us = units(tier)
     chk.bounds = ["supercell matrices: %s" % {k: MATS[k] for k in sorted({x[1] for x in us if x[0] == "supercell"})},
                   "unit cell: 2 atoms, lattice entries +-0.05 around %s, positions +-0.02 around %s, masses in [1,250], moments in [-5,5]" % (ANCHOR_L.tolist(), ANCHOR_POS.tolist()),
-                  "SNF: integer entries in [-1,1] (quick: upper-triangular; thorough: all nine entries; plus |entries| <= 2 upper-triangular slices)"]
+                  "SNF: integer entries in [-1,1], upper-triangular (a00, a01 enumerated, four entries symbolic); thorough adds a symbolic a21 with the first column fixed to (+-1, 0, 0)"]
     chk.outside = ["matrices and unit cells not listed; symprec-sized perturbations (boxes are 3 orders above symprec)", "negative-determinant matrices (rejected by phonopy with an error)",
                    "Primitive construction on symbolic geometry (maps are checked as ground facts on the listed family)", "rounding"]
     chk.assumptions = ["doubles as exact reals; rint/floor concretised only when the solver proves the value unique under the box assumptions",
